@@ -38,6 +38,7 @@ macro_rules
               | apply ec_evCancel $hR (NoStart.event $hA)
               | apply ec_cancelAllFor $hR (NoStart.event $hA)
               | apply ec_cancelKindFor $hR (NoStart.event $hA)
+              | apply ec_cancelUserAll $hR (NoStart.event $hA)
               | apply ec_guardSignal $hR (NoStart.res $hA)
               | apply ec_signal $hR (NoStart.res $hA)
               | apply ec_guardWithdraw $hR (NoStart.event $hA) (NoStart.res $hA)
@@ -185,6 +186,7 @@ macro_rules
               | apply ec_signal $hR (NoStart.res $hA)
               | apply ec_guardWaitLeave $hR (NoStart.event $hA) (NoStart.res $hA)
               | apply ec_cancelKindFor $hR (NoStart.event $hA)
+              | apply ec_cancelUserAll $hR (NoStart.event $hA)
               | apply ec_recordPool $hR
               | apply ec_recordPQ $hR
               | apply ec_setPoolInUse $hR
